@@ -144,6 +144,17 @@ class Backend:
         oid = self.names.get(name)
         return None if oid is None else self.ops.get(oid)
 
+    def find_branch(self, parent_name, index):
+        par = self.by_name(parent_name)
+        if par is None:
+            return None
+        for suffix in (f"parallel-branch-{index}", f"map-item-{index}"):
+            for oid in self.order:
+                op = self.ops[oid]
+                if op.get("ParentId") == par["Id"] and op.get("Name") == suffix:
+                    return op
+        return None
+
     def _touch(self, op):
         self.version += 1
         op["_v"] = self.version
